@@ -72,7 +72,7 @@ TreeFacts == Complete => LET L == ConvertOut.nodes IN
                 /\ \A i \in 2..Len(L) : L[i].d <= L[i - 1].d + 1                 \* pre-order listing of a forest
 GDump == Complete =>
            IF TreeOnly THEN PrintT(<<"VEC", ToJson([s |-> s, out |-> ConvertOut, printed |-> ""])>>)     \* large trees: the printers are quadratic in TLC
-           ELSE PrintT(<<"VEC", ToJson([s |-> s, out |-> ConvertOut, printed |-> Printed,
+           ELSE PrintT(<<"VEC", ToJson([s |-> s, out |-> ConvertOut, printed |-> Printed, fmt |-> PrintedFmt,
                                               indent |-> [pug |-> IndentPrinted("pug"), haml |-> IndentPrinted("haml"), slim |-> IndentPrinted("slim")],
                                               marked |-> [html |-> PrintedF, htmlc |-> PrintedFC, pug |-> IndentPrintedF("pug"), haml |-> IndentPrintedF("haml"), slim |-> IndentPrintedF("slim")]])>>)
 =============================================================================
